@@ -54,7 +54,8 @@ def run(ctx):
         r = random.Random(c["seed"])
         recs, text, index = make_fasta(r, c["n"], c["maxlen"], c["width"], c["eol"], True, c["final_newline"])
         # half of the cases write their FASTA to a path that held another FASTA before (the old index file is removed, as a user replacing a file would)
-        path = ctx.reuse_path("x.fa") if c["seed"] % 2 else ctx.path("x.fa")
+        fname_ = ["x.fa", "x.fa", "ref.gz.fa", "sample1.bam.fasta", "x.fasta", "a.b.fa"][c["seed"] % 6]        # the name of a FASTA file may contain other dotted parts
+        path = ctx.reuse_path(fname_) if c["seed"] % 2 else ctx.path(fname_)
         fai = path + ".fai"
         if os.path.exists(fai):
             os.remove(fai)
@@ -184,6 +185,19 @@ def run(ctx):
             qs = sorted(r.sample(kept, min(8, len(kept))), key=lambda t: (gorder.index(t[0]), t[1], t[2]))
             gi = g.get_intervals(Interval([q[0] for q in qs], [q[1] for q in qs], [q[2] for q in qs]))
             res = [t.upper() for t in text_rows(seq[gi])]
+            # the same through stranded intervals on the plus strand (the forward text), also when every interval is one base long
+            from bionumpy.datatypes import Bed6
+            for only_one in (False, True):
+                qs2 = [(n_, a_, a_ + 1) for n_, a_, b_ in qs] if only_one else qs
+                gs_ = g.get_intervals(Bed6([q[0] for q in qs2], [q[1] for q in qs2], [q[2] for q in qs2], ["i"] * len(qs2), [0] * len(qs2), ["+"] * len(qs2)), stranded=True)
+                try:
+                    rs_ = [t.upper() for t in text_rows(seq[gs_])]
+                except Exception as e:
+                    from bnpmon.ctx import originates_in_library
+                    if not originates_in_library(e):
+                        raise
+                    rs_ = "raised %s" % type(e).__name__
+                ctx.check("genome-route", rs_ == [d[n_][a_:b_].upper() for n_, a_, b_ in qs2], "interval-fetch:genome-route:stranded-plus%s" % (":one-base-intervals" if only_one else ""), "Genome.read_sequence()[stranded '+' intervals] gave %r" % (rs_ if isinstance(rs_, str) else rs_[:3]), dict(c, text=text, queries=qs2, got=rs_), (text, tuple(qs2), "str"))
             ctx.count("genome_route")
             ctx.check("genome-route", res == [d[n][a:b].upper() for n, a, b in qs], "interval-fetch:genome-route", "Genome.read_sequence()[intervals] gave %r" % res[:3], dict(c, text=text, queries=qs, got=res), (text, tuple(qs)))
         idx._f_obj.close()
